@@ -36,6 +36,7 @@ func run(e *harness.Env) {
 		"thorough = every grid with r*c<=4 and every grid with <= 3 such cells (2x3 and 3x2: <= 4); x HTML wrapping {thead, thead+tfoot, th row, no header, tbody only} for the small grids; x {ToMarkdown(), default options, front matter, TOC, both} for the small grids; " +
 		"(span) every single merged rectangle in 2x2, 2x3, 3x2, 3x3 (thorough: x anchor cell kind, and every pair of disjoint rectangles); " +
 		"(heading) document shapes {single level 1..9, ascending ladder, descending ladder, two consecutive headings with the same title, two of the same level} x offset -2..+7 x max 1..6 and 0 (unset) x front matter x TOC; " +
+		"(hsrc, DOCX and ODT) level 1..9 given by {built-in style id + name + outline level, localized id with canonical name, custom style with outline level only, marker-free style that inherits, direct outline level / bare text:outline-level} x basedOn / parent chains of length 1..3 whose ancestors carry a different level (quick: 2 other levels, thorough: all 8) or are the bare umbrella style named Heading; ODT also without text:outline-level where the nearest style level is 1; " +
 		"(list) every depth sequence of 1..4 (thorough 1..6) items to depth 3 x every ordered/unordered pattern per depth (8 patterns where the format can mix kinds, else 2) x options; " +
 		"(mix) every sequence of 2..3 (thorough 2..4) blocks over {paragraph, heading, bullet list, numbered list, 2x2 table, 1x1 table with '|'} x 4 option sets. " +
 		"One evaluation = one (document, options, clause) with clause in {table, heading #k, list, tokens}; distinct = distinct descriptors; non-trivial = anything but a plain-cell table / unshifted heading <= 6 / flat list under default options"
@@ -63,6 +64,7 @@ func run(e *harness.Env) {
 	c.tables()
 	c.spans()
 	c.headings()
+	c.headingSources()
 	c.lists()
 	c.mixes()
 
@@ -556,6 +558,149 @@ func (c *checker) headings() {
 					}
 				}
 				c.evaluate(p, base, d, o, len(sh.levels) > 1, "heading")
+			}
+		}
+	}
+}
+
+// ---- (hsrc) ---------------------------------------------------------------------------------------
+// How the source says "heading of level L" (DOCX, ODT): the style's own marker kind x basedOn /
+// parent chains of length 1..3 whose ancestors carry a DIFFERENT level or are the bare umbrella
+// style "Heading"; marker-free styles that inherit; direct outline level on the paragraph.
+
+func otherLevels(all bool, not ...int) []int {
+	skip := map[int]bool{}
+	for _, n := range not {
+		skip[n] = true
+	}
+	var out []int
+	if all {
+		for k := 1; k <= 9; k++ {
+			if !skip[k] {
+				out = append(out, k)
+			}
+		}
+		return out
+	}
+	// quick: level 1 (the level the bare "Heading" name would suggest) and the next level
+	l := not[0]
+	for _, k := range []int{1, l%9 + 1, (l+3)%9 + 1, (l+5)%9 + 1} {
+		if !skip[k] && len(out) < 2 {
+			skip[k] = true
+			out = append(out, k)
+		}
+	}
+	return out
+}
+
+func (c *checker) headingSources() {
+	thorough := c.e.Thorough()
+	optsets := []mdOpts{defOpts, {API: "opts", Off: 1, Max: 4}}
+	if thorough {
+		optsets = append(optsets, mdOpts{API: "plain", Max: 6}, mdOpts{API: "opts", Off: -1, Max: 0, FM: true, TOC: true})
+	}
+	for _, p := range producers {
+		if p.name != "docx" && p.name != "odt" {
+			continue
+		}
+		markers := []string{"builtin", "localized", "outline"}
+		if p.name == "odt" {
+			markers = []string{"builtin", "outline"}
+		}
+		// ancestors(level set to avoid) -> every ancestor definition
+		ancestors := func(not ...int) []styleDef {
+			var out []styleDef
+			for _, k := range otherLevels(thorough, not...) {
+				for _, m := range markers {
+					out = append(out, styleDef{m, k})
+				}
+			}
+			return append(out, styleDef{Kind: "bare"})
+		}
+		emit := func(level int, src *headSrc, own string) {
+			for _, o := range optsets {
+				base := fmt.Sprintf("space=hsrc producer=%s L=%d own=%s src=%s chainlen=%d %s", p.name, level, own, src.String(), len(src.Chain), optDesc(o))
+				conflict, bare := false, false
+				for i, sd := range src.Chain {
+					if i > 0 && sd.Level > 0 && sd.Level != level {
+						conflict = true
+					}
+					if i > 0 && sd.Kind == "bare" {
+						bare = true
+					}
+				}
+				if conflict {
+					base += " hsrc=other-level-ancestor"
+				}
+				if bare {
+					base += " hsrc=bare-heading-ancestor"
+				}
+				d := &Doc{Title: "Ttl"}
+				d.Title += d.token()
+				h := d.heading(level)
+				h.Src = src
+				d.Blocks = append(d.Blocks, h, d.para())
+				c.evaluate(p, base, d, o, true, "hsrc")
+			}
+		}
+		chainsBelow := func(level int, own []styleDef, ownName string, noattr bool) {
+			// own alone, + parent, + parent + grandparent
+			mk := func(ch []styleDef) *headSrc {
+				return &headSrc{Chain: append([]styleDef{}, ch...), NoAttr: noattr}
+			}
+			if own[len(own)-1].Kind != "none" {
+				emit(level, mk(own), ownName)
+			}
+			for _, par := range ancestors(level) {
+				if own[len(own)-1].Kind == "none" && par.Kind == "bare" {
+					continue // a marker-free style under the bare umbrella style: no level is defined anywhere
+				}
+				ch := append(append([]styleDef{}, own...), par)
+				emit(level, mk(ch), ownName)
+				if par.Kind == "bare" {
+					continue // the umbrella style is a root in practice
+				}
+				for _, gp := range ancestors(level, par.Level) {
+					emit(level, mk(append(append([]styleDef{}, ch...), gp)), ownName)
+				}
+			}
+		}
+		for level := 1; level <= 9; level++ {
+			for _, m := range markers {
+				chainsBelow(level, []styleDef{{m, level}}, m, false)
+			}
+			// marker-free own style: the nearest ancestor's level is the heading's level
+			for _, m := range markers {
+				own := []styleDef{{Kind: "none"}, {m, level}}
+				emit(level, &headSrc{Chain: own}, "inherit")
+				for _, gp := range ancestors(level) {
+					emit(level, &headSrc{Chain: append(append([]styleDef{}, own...), gp)}, "inherit")
+				}
+			}
+			if p.name == "docx" {
+				// direct w:outlineLvl on a paragraph without style / with marker-free styles
+				for n := 0; n <= 3; n++ {
+					src := &headSrc{Direct: level}
+					for i := 0; i < n; i++ {
+						src.Chain = append(src.Chain, styleDef{Kind: "none"})
+					}
+					emit(level, src, "direct")
+				}
+			} else {
+				// text:h without a style: the level is the text:outline-level attribute alone
+				emit(level, &headSrc{}, "nostyle")
+			}
+		}
+		if p.name == "odt" {
+			// text:h without text:outline-level: ODF's default level 1; only styles whose own /
+			// nearest level is 1 as well (both readings of an absent attribute agree there)
+			for _, m := range markers {
+				chainsBelow(1, []styleDef{{m, 1}}, m+"-noattr", true)
+				own := []styleDef{{Kind: "none"}, {m, 1}}
+				emit(1, &headSrc{Chain: own, NoAttr: true}, "inherit-noattr")
+				for _, gp := range ancestors(1) {
+					emit(1, &headSrc{Chain: append(append([]styleDef{}, own...), gp), NoAttr: true}, "inherit-noattr")
+				}
 			}
 		}
 	}
